@@ -71,8 +71,11 @@ def CreateMapping : List String := ["isBaseDomainSupported", "generateMappingID"
 def DeleteMapping : List String := ["GetMapping", "HTTPDomainDeleteClaimKey", "SetNX", "storage.Delete", "HTTPDomainIndexKey", "storage.Get", "storage.Delete", "HTTPDomainMappingKey", "storage.Delete", "removeFromClientMappingList", "removeFromGlobalMappingList"]
 def GetMapping : List String := ["HTTPDomainMappingKey", "storage.Get"]
 def LookupByDomain : List String := ["HTTPDomainIndexKey", "storage.Get", "GetMapping"]
+def Registry_IsBaseDomainAllowed : List String := ["mu.RLock", "defer mu.RUnlock", "@r.baseDomains", "@r.baseDomains"]
+def Registry_Lookup : List String := ["mu.RLock", "defer mu.RUnlock", "@r.mappings"]
 def Registry_LookupByHost : List String := ["Lookup"]
-def Registry_Register : List String := ["FullDomain", "IsBaseDomainAllowed", "mu.Lock", "mu.Unlock"]
+def Registry_Register : List String := ["FullDomain", "IsBaseDomainAllowed", "mu.Lock", "defer mu.Unlock", "@r.mappings", "@r.mappings"]
+def Registry_Unregister : List String := ["mu.Lock", "defer mu.Unlock", "@r.mappings", "@r.mappings"]
 def UpdateMapping : List String := ["GetMapping", "Validate", "HTTPDomainMappingKey", "storage.Set"]
 def generateMappingID : List String := ["Incr"]
 def lookupFromRepositoryWithRepo : List String := ["repo.LookupByDomain", "IsActive", "IsExpired", "convertHTTPDomainMappingToPortMapping"]
